@@ -26,7 +26,10 @@ import CddVerif.Gen.JsonSchemaTables
   (`$id $schema description type properties required default pattern format`), tied to
   `jsonschema.Draft202012Validator.check_schema` by the harness (also on invalid mutants).
 * `validates` — instance validation for the keywords of an emitted *property* schema (`type`, `pattern`).
-* `patAccepts` — semantics of `re.search(pattern, s)` for the only patterns emitted: `m₁|m₂|…` of word characters.
+* `patAccepts` — semantics of `re.search(pattern, s)` for patterns `m₁|m₂|…` of literal strings without
+  regular-expression metacharacters (`plainChar`).  The emitter does not escape: for members *with* metacharacters the
+  emitted pattern means something else (or nothing) — the model does not speak about its meaning there (`Typ.plain`),
+  while emit/parse themselves are modelled for every member string.
 -/
 namespace JsonSchema
 open Py
@@ -520,9 +523,18 @@ def typeOk : J → Bool
   | .arr xs => !xs.isEmpty && uniqueStrs xs && xs.all (fun x => match x with | .str s => simpleTypes.contains s | _ => false)
   | _ => false
 
-/-- characters of the regular expressions this fragment vouches for: word characters, `|` and the blank
-    (every such string is a valid regular expression; anything else is answered `false`: under-approximation) -/
-def patChar (c : Char) : Bool := isAsciiLetter c || isAsciiDigit c || c = '_' || c = '|' || c = ' '
+def printable (c : Char) : Bool := 0x20 ≤ c.toNat && c.toNat < 0x7F
+
+/-- the characters with a special meaning in a Python regular expression -/
+def metaChars : List Char := ['.', '^', '$', '*', '+', '?', '{', '}', '[', ']', '\\', '|', '(', ')']
+
+/-- printable ASCII that stands for itself in a regular expression -/
+def plainChar (c : Char) : Bool := printable c && !metaChars.contains c
+
+/-- characters of the regular expressions this fragment vouches for: alternations (`|`) of literal strings of
+    `plainChar`s (every such string is a valid regular expression; anything else is answered `false`:
+    under-approximation) -/
+def patChar (c : Char) : Bool := plainChar c || c = '|'
 
 def patternOk : J → Bool
   | .str s => s.all patChar
@@ -600,21 +612,44 @@ def validates (schema : J) (inst : J) : Bool :=
 
 /-! ## The domain the theorems quantify over -/
 
-/-- members of a `Literal`: non-empty words of letters, digits, underscore -/
+/-- members of a `Literal` *return* type (it travels through the docstring of the description): non-empty words of
+    letters, digits, underscore -/
 def wordChar (c : Char) : Bool := isAsciiLetter c || isAsciiDigit c || c = '_'
 def memberOk (m : Str) : Bool := !m.isEmpty && m.all wordChar
 
-def Typ.ok (t : Typ) : Bool :=
+def Typ.okRet (t : Typ) : Bool :=
   match t.core with
   | .base _ => true
   | .lit ms => !ms.isEmpty && ms.all memberOk
+
+/-- characters of a `Literal` member of a *parameter*: any printable ASCII character except
+    * `|` — it is the **separator** of the emitted pattern (`"|".join(members)`), the parser splits on it, so a member
+      containing it comes back as two members;
+    * `'` and `\` — the parser re-quotes the members with `"'{}'".format(m)`, without escaping. -/
+def memberChar (c : Char) : Bool := printable c && c ≠ '|' && c ≠ '\'' && c ≠ '\\'
+def memberWide (m : Str) : Bool := m.all memberChar
+
+/-- a parameter type of the domain.  For a `Literal`: at least one member, every member of `memberChar`s (blanks,
+    hyphens, dots, brackets, … allowed; the empty string too), but not the empty string *alone* (its pattern `""` is
+    falsy and the parser then leaves the type `str`), and the rebuilt `Literal[...]` string must not contain the text
+    `Optional[` (the parser's `"Optional[" not in typ` test would not re-wrap an `Optional[Literal['Optional[', …]]`). -/
+def Typ.ok (t : Typ) : Bool :=
+  match t.core with
+  | .base _ => true
+  | .lit ms => !ms.isEmpty && ms.all memberWide && decide (ms ≠ [[]]) &&
+      !Py.contains (literalOf (sortStrs ms)) js!"Optional["
+
+/-- every `Literal` member stands for itself as a regular expression (no metacharacter): the region on which the
+    emitted, *unescaped* pattern is a valid regular expression that means its members -/
+def Typ.plain (t : Typ) : Bool :=
+  match t.core with
+  | .base _ => true
+  | .lit ms => ms.all (fun m => m.all plainChar)
 
 /-- the docstring tokens (ReST, Google) whose presence anywhere switches the docstring parser's behaviour -/
 def triggers : List Str :=
   [js!":param", js!":cvar", js!":ivar", js!":var", js!":type", js!":raises", js!":return", js!":rtype",
    js!"Args:", js!"Kwargs:", js!"Raises:", js!"Returns:"]
-
-def printable (c : Char) : Bool := 0x20 ≤ c.toNat && c.toNat < 0x7F
 
 /-- a line of trigger-free prose: printable ASCII, no edge blanks, none of the tokens, not a numpydoc underline -/
 def lineOk (l : Str) : Bool :=
@@ -630,7 +665,7 @@ def lowerAscii (s : Str) : Str := s.map lowerC
 /-- return entry: type in the domain; doc absent or one non-empty line of trigger-free prose that does not
     announce a default; both lines short enough (≤ 100 columns) not to be word-wrapped -/
 def retOk (r : Ret) : Bool :=
-  r.typ.ok && (js!":rtype: ```" ++ r.typ.render ++ js!"```").length ≤ 100 &&
+  r.typ.okRet && (js!":rtype: ```" ++ r.typ.render ++ js!"```").length ≤ 100 &&
   (match r.doc with
    | none => true
    | some d => !d.isEmpty && lineOk d && !Py.contains (lowerAscii d) js!"efault" && (js!":return: " ++ d).length ≤ 100)
@@ -662,5 +697,8 @@ def IR.ok (ir : IR) : Bool :=
   docOk ir.doc &&
   ir.params.all (fun np => paramOk np.2) &&
   (match ir.returns with | some r => retOk r | none => true)
+
+/-- the sub-domain on which the unescaped patterns are what they are meant to be (see `Typ.plain`) -/
+def IR.plain (ir : IR) : Bool := ir.params.all (fun np => np.2.typ.plain)
 
 end JsonSchema
